@@ -6,8 +6,8 @@ export GOFLAGS=-mod=mod GOPROXY=off GOSUMDB=off GOTOOLCHAIN=local
 mkdir -p .build evidence replays
 (cd extract && go build -o ../.build/extract .)
 .build/extract -repo /repo -out lean/Vegeta/Extracted/Facts.lean
-(cd lean && lake build Vegeta driver)
+(cd lean && lake build)
 cp /repo/go.sum harness/go.sum
-(cd harness && go build -tags verif -o ../.build/vh ./cmd/vh)
+(cd harness && for d in cmd/*/; do n=$(basename $d); go build -tags verif -o ../.build/vh_$n ./cmd/$n; done)
 (cd /repo && go build -tags verif -o /verif/.build/vegeta-verif .)
 echo setup done
